@@ -214,6 +214,33 @@ def extract(repo, failures):
     else:
         d["exitDrainShape"] = False
 
+    # ---- C17: a logger is erased only behind the emptiness check; removal flag after the erase; request before invalidation
+    try:
+        lm2 = re.sub(r"\s+", " ", strip_cpp_comments(read(repo, "include/quill/core/LoggerManager.h")))
+        d["eraseGuardedByEmptyCheck"] = bool(re.search(
+            r"if \(!it->get\(\)->is_valid_logger\(\)\) \{ if \(!check_queues_empty\(\)\) \{ \+\+it; "
+            r"_has_invalidated_loggers\.store\(true[^;]*\); \} else \{ removed_loggers\.push_back\([^;]*\); "
+            r"it = _loggers\.erase\(it\); \} \} else \{ \+\+it; \}", lm2))
+    except Exception:
+        d["eraseGuardedByEmptyCheck"] = False
+    cl2 = func_body(bw, r"void\s+_cleanup_invalidated_loggers\s*\(\s*\)\s*\{")
+    if cl2 is None:
+        failures.append("backend: _cleanup_invalidated_loggers not found")
+        d["removalFlagAfterErase"] = False
+        d["emptyCheckIsAllQueues"] = False
+    else:
+        i_call = cl2.find("cleanup_invalidated_loggers(")
+        i_sinks = cl2.find("cleanup_unused_sinks()")
+        i_flag = cl2.find("->store(true)")
+        d["removalFlagAfterErase"] = 0 <= i_call < i_sinks < i_flag and "_logger_removal_flags.find(removed_logger_name)" in cl2
+        d["emptyCheckIsAllQueues"] = bool(re.search(r"return\s+_check_frontend_queues_and_cached_transit_events_empty\(\)\s*;", cl2))
+    try:
+        fe = strip_cpp_comments(read(repo, "include/quill/Frontend.h"))
+        rb = func_body(fe, r"static\s+void\s+remove_logger_blocking\s*\([^)]*\)\s*\{")
+        d["removalRequestBeforeInvalidate"] = bool(rb and 0 <= rb.find("log_statement") < rb.find("remove_logger(logger)") < rb.find("logger_removal_complete.load()"))
+    except Exception:
+        d["removalRequestBeforeInvalidate"] = False
+
     L = []
     L.append("/-- facts of the backend worker / frontend the backend model is parametric in -/")
 
